@@ -569,8 +569,16 @@ type failWriter struct {
 	buf   bytes.Buffer
 	limit int  // fail once more than limit bytes would have been written; <0 never
 	once  bool // a transient fault: only the one write that crosses the limit fails, later writes succeed
+	temp  bool // the error says it is temporary (EAGAIN-like: Temporary() == true)
 	fired bool
 }
+
+// tempErr: a write error that calls itself temporary
+type tempErr struct{}
+
+func (tempErr) Error() string   { return "verif-io: injected temporary write failure" }
+func (tempErr) Temporary() bool { return true }
+func (tempErr) Timeout() bool   { return false }
 
 func (w *failWriter) Write(p []byte) (int, error) {
 	if w.limit >= 0 && w.buf.Len()+len(p) > w.limit && !(w.once && w.fired) {
@@ -580,6 +588,9 @@ func (w *failWriter) Write(p []byte) (int, error) {
 			n = 0
 		}
 		w.buf.Write(p[:n])
+		if w.temp {
+			return n, tempErr{}
+		}
 		return n, errors.New("verif-io: injected write failure")
 	}
 	return w.buf.Write(p)
@@ -609,7 +620,7 @@ func (e *Exec) doWriteTo(c *Cmd) string {
 		}
 		return fmt.Sprintf("%s n=%d", errKind(err), n)
 	}
-	fw := &failWriter{limit: c.num("fail", -1), once: c.str("once", "0") == "1"}
+	fw := &failWriter{limit: c.num("fail", -1), once: c.str("once", "0") == "1", temp: c.str("temp", "0") == "1"}
 	var n int64
 	if bs := c.num("bufio", 0); bs > 0 {
 		// the caller's own buffered writer (of any size), flushed by the caller afterwards
@@ -1653,6 +1664,7 @@ func (e *Exec) expand(c *Cmd, out *bufio.Writer) {
 				continue
 			}
 			emit(fmt.Sprintf("writeto %s wtmp fail=%d full=%d once=1", seg, l, full))
+			emit(fmt.Sprintf("writeto %s wtmp fail=%d full=%d once=1 temp=1", seg, l, full))
 			if l%10 == 0 {
 				emit(fmt.Sprintf("writeto %s wtmp fail=%d full=%d once=1 bufio=%d", seg, l, full, bsizes[(l/10)%len(bsizes)]))
 			}
